@@ -329,6 +329,45 @@ func c12Containers(thorough bool) []any {
 	return out
 }
 
+// c12StringClass names what a string exercises in the encoders.
+func c12StringClass(s string) string {
+	var cls []string
+	has := func(f func(r rune, size int, b byte) bool) bool {
+		for i := 0; i < len(s); {
+			r, size := utf8.DecodeRuneInString(s[i:])
+			if f(r, size, s[i]) {
+				return true
+			}
+			i += size
+		}
+		return false
+	}
+	if s == "" {
+		return "empty"
+	}
+	if has(func(r rune, size int, b byte) bool { return r == utf8.RuneError && size == 1 }) {
+		cls = append(cls, "invalid UTF-8")
+	}
+	if has(func(r rune, size int, b byte) bool { return b < 0x20 || b == 0x7f }) {
+		cls = append(cls, "control")
+	}
+	if has(func(r rune, size int, b byte) bool { return b == '"' || b == '\\' }) {
+		cls = append(cls, "quote/backslash")
+	}
+	if has(func(r rune, size int, b byte) bool {
+		return b == '<' || b == '>' || b == '&' || r == 0x2028 || r == 0x2029
+	}) {
+		cls = append(cls, "html/line-separator")
+	}
+	if has(func(r rune, size int, b byte) bool { return size > 1 }) {
+		cls = append(cls, "multi-byte")
+	}
+	if len(cls) == 0 {
+		return "plain"
+	}
+	return strings.Join(cls, "+")
+}
+
 func c12Run(c *engine.Ctx) {
 	full := true
 	thorough := !c.Quick()
@@ -346,14 +385,24 @@ func c12Run(c *engine.Ctx) {
 		}
 	}
 	if full {
-		n3 := 24
-		if thorough {
-			n3 = 40
-		}
+		n3 := len(c12Alphabet)
 		for _, a := range c12Alphabet[:n3] {
 			for _, b := range c12Alphabet[:n3] {
 				for _, d := range c12Alphabet[:n3] {
 					strs = append(strs, a+b+d)
+				}
+			}
+		}
+	}
+	if thorough {
+		// length 4 over the symbols that change the encoders' state (escapes, invalid bytes, multi-byte)
+		sub := c12Alphabet[:min(18, len(c12Alphabet))]
+		for _, a := range sub {
+			for _, b := range sub {
+				for _, d := range sub {
+					for _, e := range sub {
+						strs = append(strs, a+b+d+e)
+					}
 				}
 			}
 		}
@@ -370,6 +419,7 @@ func c12Run(c *engine.Ctx) {
 			}
 		}
 		c.DistinctN(3)
+		c.Outcome("string: " + c12StringClass(s))
 	}
 	c.Sample(map[string]any{"string": "\xed\xa0\x80\"", "as": "value, object key, nested"})
 
@@ -506,7 +556,7 @@ func init() {
 	engine.Register(&engine.Check{
 		ID:    "C12",
 		Level: "exploration",
-		Rule: "all strings of length <= 2 over a 48-piece byte alphabet (control bytes, quote, backslash, DEL, every UTF-8 lead/continuation class, surrogate encodings, U+2028/9, U+FFFD, boundary code points; and all strings of length 3 over 24 of them, thorough 40) as value, object key and nested; ~50 numbers (float64 bit-pattern classes and format thresholds, NaN/inf, json.Number literals, big integers); containers of depth 0..40 (thorough 0..70,129,200), width up to 1000 (9000), sizes around the 8 KiB flush threshold; " +
+		Rule: "all strings of length <= 2 over a 48-piece byte alphabet (control bytes, quote, backslash, DEL, every UTF-8 lead/continuation class, surrogate encodings, U+2028/9, U+FFFD, boundary code points; all strings of length 3 over all of them, thorough also length 4 over 18 of them) as value, object key and nested; ~50 numbers (float64 bit-pattern classes and format thresholds, NaN/inf, json.Number literals, big integers); containers of depth 0..40 (thorough 0..70,129,200), width up to 1000 (9000), sizes around the 8 KiB flush threshold; " +
 			"each rendered by Marshal, tojson, tostring, @json, @text and the command's encoder in every option combination (compact, indent 0..9, tab, each plain and coloured), read back with encoding/json and compared (modulo NaN->null, inf saturation, U+FFFD per invalid byte), all modes compared modulo insignificant white space and SGR sequences, indentation = depth x unit on every line; encoder/Marshal reuse histories; the same strings through the real command line and a YAML output/input round trip.",
 		Assume:         []string{"encoding/json is the reader; go-yaml is exercised but its own quoting decisions are trusted as long as the text reads back equal"},
 		Run:            c12Run,
